@@ -115,6 +115,41 @@ def main():
                 if SA.float_bytes(x) != want:
                     report["failures"].append({"anchor": "float_bytes", "x": repr(x)})
                 anchors["float_bytes"] += 1
+    # calendar observers / constructors assumed by the C16 contracts (contracts/externals.py, spec/core.py)
+    import datetime
+    anchors["datetime.time"] = anchors["date.fromordinal"] = 0
+    for _ in range(2000):
+        h, m, s_, us = (rng.choice([-1, 0, 1, 23, 24, rng.randrange(24)]), rng.choice([-1, 0, 59, 60, rng.randrange(60)]),
+                        rng.choice([-1, 0, 59, 60, rng.randrange(60)]), rng.choice([-1, 0, 999, 1000, 999999, 1000000, rng.randrange(10 ** 6)]))
+        ok = 0 <= h < 24 and 0 <= m < 60 and 0 <= s_ < 60 and 0 <= us < 1000000
+        try:
+            t = datetime.time(h, m, s_, us)
+            good = ok and SC.is_time(t) and (SC.tod_hour(t), SC.tod_minute(t), SC.tod_second(t), SC.tod_micro(t)) == (h, m, s_, us)
+        except ValueError:
+            good = not ok
+        if not good:
+            report["failures"].append({"anchor": "datetime.time", "args": [h, m, s_, us]})
+        anchors["datetime.time"] += 1
+        n = rng.choice([0, 1, 2, 719163, 3652059, 3652060, -5, rng.randrange(1, 3652060)])
+        try:
+            d = datetime.date.fromordinal(n)
+            good = 1 <= n <= 3652059 and SC.is_date(d) and SC.date_ordinal(d) == n and not SC.is_datetime(d)
+        except ValueError:
+            good = not (1 <= n <= 3652059)
+        if not good:
+            report["failures"].append({"anchor": "date.fromordinal", "n": n})
+        anchors["date.fromordinal"] += 1
+    if datetime.date(1970, 1, 1).toordinal() != 719163 or datetime.date(1, 1, 1).toordinal() != 1 or datetime.date(9999, 12, 31).toordinal() != 3652059:
+        report["failures"].append({"anchor": "epoch ordinal"})
+    # int(a / b) == a // b below 2**52 (ax_idiv_trunc): the dangerous inputs are a = k*b - 1 (quotient just below an integer)
+    anchors["idiv_trunc"] = 0
+    for _ in range(20000):
+        b = rng.choice([1, 2, 3, 7, 10, 1000, 60000, 3600000, 3600000000, rng.randrange(1, 2 ** rng.randrange(1, 52))])
+        k = rng.randrange(0, max(1, (2 ** 52 - 1) // b))
+        for a in (k * b - 1, k * b, k * b + 1, rng.randrange(2 ** 52)):
+            if 0 <= a < 2 ** 52 and int(a / b) != a // b:
+                report["failures"].append({"anchor": "idiv_trunc", "a": a, "b": b})
+            anchors["idiv_trunc"] += 1
     report["anchors"] = anchors
     report["wall_s"] = round(time.time() - t0, 2)
     report["note"] = "differential test of assumed axioms against CPython; not a proof and not counted as discharged"
